@@ -299,6 +299,41 @@ func (g *c09gen) directed() []c09page {
 		}
 		out = append(out, p)
 	}
+	// one column: a numbered heading in a larger size above body text; and words followed by fragments that
+	// hold only a blank, on a page in small units (glyphs under 5 units high) and with a one-letter last line
+	for _, variant := range []string{"numbered-heading", "blank-fragments-small-units", "blank-fragments-short-last-line"} {
+		p := c09page{w: 612, h: 792, kind: "1col+directed:" + variant}
+		k := 1.0
+		if variant == "blank-fragments-small-units" {
+			k = 0.1
+			p.w, p.h = 61.2, 79.2
+		}
+		add := func(s string, x, y, w, h float64) {
+			p.frags = append(p.frags, text.TextFragment{Text: s, X: x * k, Y: y * k, Width: w * k, Height: h * k, FontSize: h * k, FontName: "F1", Direction: text.LTR})
+			p.tokens = append(p.tokens, c09Tok.FindAllString(s, -1)...)
+		}
+		blanks := variant != "numbered-heading"
+		if !blanks {
+			add("2. "+g.tok()+" and "+g.tok(), 72, 700, 260, 20)
+		}
+		for rw := 0; rw < 6; rw++ {
+			x := 72.0
+			for wd := 0; wd < 7; wd++ {
+				add(g.tok(), x, 660-14*float64(rw), 40, 10)
+				x += 40
+				if blanks {
+					add(" ", x, 660-14*float64(rw), 3, 10)
+				}
+				x += 6
+			}
+		}
+		if variant == "blank-fragments-short-last-line" {
+			// the last line of the paragraph: one letter and a blank, apart from the lines above
+			add("a", 72, 660-14*6-30, 6, 10)
+			add(" ", 78, 660-14*6-30, 3, 10)
+		}
+		out = append(out, p)
+	}
 	return out
 }
 
